@@ -747,6 +747,23 @@ def run(ctx, idx):
             ctx.violate("C11.e", con, mod.rel, n.lineno, "%s is raised %s: the error names no (or a wrong) source line and the CLI cannot mark it" % (
                 r[1].name, "without a line" if e is None else "with lineno=%s, which is not the line of the offending object" % K.src(e)))
     ctx.floor("C11.e", "ProgramError raise sites in program/commands/params/utils", n_raise, 20)
+    # library commands: a line that IS passed to an error must be a line of the command file (the command's own line, one of its
+    # arguments' lines) - a row number of a data file, a loop counter or an array index marks an unrelated line of the model
+    n_lib = 0
+    for mod, f, n in K.scoped_nodes(idx):
+        if not mod.name.startswith("mpilot.libraries.") or f is None or not (isinstance(n, ast.Raise) and isinstance(n.exc, ast.Call)):
+            continue
+        r = idx.resolve(mod, n.exc.func, f)
+        if not r or r[0] != "class" or perr not in idx.mro(r[1]):
+            continue
+        e = next((k.value for k in n.exc.keywords if k.arg == "lineno"), None)
+        if e is None:
+            continue
+        n_lib += 1
+        okl = carries_line(e, f)
+        ctx.ob("C11.e", "%s::raise(%s)::line-of-the-model" % (f.key, r[1].name), mod.rel, n.lineno, okl, "lineno <- %s" % K.src(e) if okl else
+               "%s is raised with lineno=%s, which is not a line of the command file (a row of the data file, a counter): the error - and the command-line tool's `-->` mark - point at an unrelated line of the model, or past its end" % (r[1].name, K.src(e)))
+    ctx.floor("C11.e", "library raise sites that pass a line", n_lib, 10)
     # ------------------------------------------------------------------ f
     cli = idx.func("mpilot.cli.mpilot", "main")
     s_all = [n for n in own_nodes(cli.node)]
